@@ -162,6 +162,53 @@ func idSweep(full bool, f func(m model.Message) bool) {
 			}
 		}
 	}
+	// Security Associations at and beyond what an 8-bit counter holds (proposals have no count on the wire; transforms do), a
+	// transform region of more than 32 KiB with a transform behind the big one, many transforms with attributes
+	for _, np := range []int{255, 256, 257, 300} {
+		sa := &model.SA{}
+		for i := 0; i < np; i++ {
+			sa.Proposals = append(sa.Proposals, model.Proposal{Number: uint8(i + 1), Protocol: 1, Transforms: []model.Transform{{Type: 1, ID: uint16(i)}}})
+		}
+		if !f(model.Message{Header: h, Payloads: []model.Payload{{Kind: model.KSA, SA: sa}, {Kind: model.KNonce, Data: model.Bytes{1}}}}) {
+			return
+		}
+	}
+	{
+		bigAttr := &model.Attr{Type: 300, Var: pat(33000, 5)}
+		sa := &model.SA{Proposals: []model.Proposal{{Number: 1, Protocol: 1, Transforms: []model.Transform{{Type: 3, ID: 12, Attr: bigAttr}, {Type: 1, ID: 12, Attr: &model.Attr{TV: true, Type: 14, Value: 256}}, {Type: 4, ID: 14}}},
+			{Number: 2, Protocol: 1, Transforms: []model.Transform{{Type: 1, ID: 3}}}}}
+		if !f(model.Message{Header: h, Payloads: []model.Payload{{Kind: model.KSA, SA: sa}}}) {
+			return
+		}
+		var many []model.Transform
+		for i := 0; i < 255; i++ {
+			many = append(many, model.Transform{Type: uint8(1 + i%5), ID: uint16(i), Attr: &model.Attr{Type: uint16(200 + i), Var: pat(130, byte(i))}})
+		}
+		sa2 := &model.SA{Proposals: []model.Proposal{{Number: 1, Protocol: 3, SPI: pat(255, 1), Transforms: many}, {Number: 2, Protocol: 3, SPI: pat(4, 2), Transforms: many[:3]}}}
+		if !f(model.Message{Header: h, Payloads: []model.Payload{{Kind: model.KSA, SA: sa2}}}) {
+			return
+		}
+	}
+	// configuration attributes of the registered types with the value sizes that mean something for one of them
+	for ty := uint16(1); ty <= 25; ty++ {
+		for _, n := range []int{0, 1, 4, 8, 16, 17, 32} {
+			for _, ct := range []uint8{1, 2, 3, 4} {
+				if !emit(int(ty)+n, model.Payload{Kind: model.KCP, CP: &model.CP{Type: ct, Attrs: []model.CPAttr{{Type: ty, Value: pat(n, byte(ty))}, {Type: ty, Value: pat(n, 3)}}}}) {
+					return
+				}
+			}
+		}
+	}
+	// Delete payloads with as many SPIs as fit (16381) and with a few thousand
+	for _, n := range []int{4096, 8192, 16381} {
+		d := &model.Delete{Protocol: 3, SPISize: 4, Count: uint16(n)}
+		for i := 0; i < n; i++ {
+			d.SPIs = append(d.SPIs, uint32(i)*2654435761)
+		}
+		if !f(model.Message{Header: h, Payloads: []model.Payload{{Kind: model.KDelete, Delete: d}, {Kind: model.KDelete, Delete: &model.Delete{Protocol: 1}}, {Kind: model.KDelete, Delete: &model.Delete{Protocol: 3, SPISize: 4}}}}) {
+			return
+		}
+	}
 	// DH public values an RFC 6989-minded validator looks at: 0, 1, p-1, p, p+1 in the full width of the group
 	for g, grp := range []uint16{2, 14} {
 		P := ref.ModpPrime(ref.DHs[g].Bits)
@@ -238,7 +285,9 @@ func idSweep8(f func(m model.Message) bool) bool {
 			{Kind: model.KDelete, Delete: &model.Delete{Protocol: b}},
 			{Kind: model.KCP, CP: &model.CP{Type: b, Attrs: []model.CPAttr{{Type: 1, Value: pat(4, 1)}}}},
 			{Kind: model.KSA, SA: &model.SA{Proposals: []model.Proposal{{Number: b, Protocol: uint8(255 - v), SPI: pat(v%9, 1), Transforms: []model.Transform{{Type: 1, ID: 12, Attr: &model.Attr{TV: true, Type: 14, Value: 256}}}}}}},
-			{Kind: model.KTSi, TS: &model.TS{Selectors: []model.Selector{{Type: 7, Protocol: b, StartPort: 0, EndPort: 65535, StartAddr: pat(4, b), EndAddr: pat(4, b+1)}}}},
+			{Kind: model.KTSi, TS: &model.TS{Selectors: []model.Selector{{Type: 7, Protocol: b, StartPort: 0, EndPort: 65535, StartAddr: pat(4, b), EndAddr: pat(4, b+1)},
+				{Type: 7, Protocol: b, StartPort: 0x0304, EndPort: 0x0501, StartAddr: pat(4, b), EndAddr: pat(4, b)}, {Type: 8, Protocol: b, StartPort: 0x0800, EndPort: 0x0800, StartAddr: pat(16, b), EndAddr: pat(16, b)}}}},
+			{Kind: model.KTSr, TS: &model.TS{Selectors: []model.Selector{{Type: 7, Protocol: b, StartPort: 0x8000, EndPort: 0x0001, StartAddr: pat(4, b), EndAddr: pat(4, b+1)}}}},
 			{Kind: model.KEAP, EAP: &model.EAP{Code: 1 + b%2, Identifier: b, Kind: model.EAka, Sub: b, Attrs: []model.AkaAttr{{Type: model.AT_KDF, Value: model.Bytes{0, 1}}}}},
 			{Kind: model.KEAP, EAP: &model.EAP{Code: 1, Identifier: b, Kind: model.EExpanded, VendorID: 10415, VendorType: uint32(v), Data: pat(3, b)}},
 		}
